@@ -629,6 +629,10 @@ func (e *specEnv) evalCall(n ECall) Val {
 		} else if v.Sort == "Iface" {
 			r = "(iref " + v.S + ")"
 		}
+		if c, ok := e.st.appendCond[v.S]; ok && v.Sort == "Slice" {
+			// the result of append is new memory only if the append could not happen in place
+			return Val{S: sAnd("(> "+r+" "+e.st.x.initAlloc+")", c), Sort: "Bool"}
+		}
 		return Val{S: "(> " + r + " " + e.st.x.initAlloc + ")", Sort: "Bool"}
 	case "cast":
 		// cast(x, T): view a reference (pointer, interface payload or ghost ref) as *T, T a struct type name
